@@ -469,8 +469,10 @@ def check_symbols_minute_major(repo, rep):
     """'at every point of a futures session' with several symbols sharing one wallet: the unrealised PnL of the OTHER symbols that
     enters the available margin at a fill must be priced at that minute; the fast simulator replays a whole chunk per symbol, so the
     other symbol is already priced at the chunk's last close (the construct decided by C02-R7)"""
-    from props.c02 import check_symbol_interleaving
-    check_symbol_interleaving(repo, rep, rid="C03-R7", protocol=False)
+    from props import sessions as S
+    rep.rule("C03-R7", "both simulator functions interpreted whole on mini sessions with the matcher recorded: every minute of every symbol is "
+                       "matched exactly once, in order, and with several symbols minute-major (every symbol's minute m before any symbol's minute m+1)")
+    S.check_cover(repo, rep, "C03-R7")
 
 
 def run(repo: Repo, rep, tier: str):
